@@ -167,6 +167,17 @@ prop('C16', 'model_checking',
      'compared with the acceptable answers; configuration -> metadata -> store round trip for SP and IdP', TOOL_NOTE,
      'TLA+ scenario spec + TLC + exhaustive replay', 'section 5 C16')
 
+prop('C12', 'model_checking',
+     'Schema.tla reads the class tables extracted from the working tree (1 154 exported classes of 33 schema modules) and '
+     'defines serialisation and parsing the way SamlBase works over them; TLC checks for every class the table invariants the '
+     'generic algorithms need (a c_children key names the element of the class it maps to, every member occurs in a non-empty '
+     'c_child_order, member names unique) and the abstract round trip of every instance variant; all variants (nothing set, each '
+     'attribute, all attributes, each child 1..3 times, all children, foreign child / attribute, XML-special and non-ASCII '
+     'text) are built with the real classes, serialised, parsed, compared structurally, re-serialised byte for byte and checked '
+     'for schema child order',
+     'depth-1 instances; two text classes per class; values are one canonical literal per declared type',
+     'TLA+ table model + TLC + exhaustive replay over extracted schema tables', 'section 5 C12')
+
 
 def main():
     props = [json.loads(l) for l in open(os.path.join(VERIF, 'properties.jsonl'))]
